@@ -16,6 +16,9 @@
 (*   [k |-> "assoc", i, n]       P_i::Assoc                                 *)
 (*   [k |-> "qassoc", of, n]     <of as Tr>::Assoc                          *)
 (*   [k |-> "abs",   n]          ::absolute::path (never a parameter)       *)
+(*   [k |-> "cgen",  len, braced] C<N> / C<{ N }>: a CONST parameter as a   *)
+(*                               generic argument (bare: syn reads a type   *)
+(*                               path; braced: an expression)               *)
 (* params[i].k \in {"type","const","lifetime"}.                            *)
 (***************************************************************************)
 EXTENDS DxBase
@@ -34,5 +37,6 @@ Mentions(ty, params) ==
       [] ty.k = "ptr"    -> Mentions(ty.of, params)
       [] ty.k = "assoc"  -> params[ty.i].k = "type"
       [] ty.k = "qassoc" -> Mentions(ty.of, params)
+      [] ty.k = "cgen"   -> params[ty.len].k = "const"
       [] OTHER           -> FALSE
 =============================================================================
